@@ -8,21 +8,21 @@ USES = {
  'C11': ['Array', 'ProbesArr'],
  'C15': ['Array', 'ProbesArr'],
  'C02': ['Slice', 'SliceFns', 'SliceIter', 'BytesPub'],
- 'C03': ['Slice', 'Str', 'StrFns'],
+ 'C03': ['Slice', 'Str', 'StrFns', 'Rest'],
  'C04': ['Slice', 'Bytes', 'Bytes2', 'StrFns', 'ParserB', 'BytesPub'],
  'C05': ['Bytes', 'Bytes2', 'BytesTrim', 'StrFns', 'BytesPub'],
- 'C06': ['Slice', 'Str', 'Bytes', 'Bytes2', 'StrFns', 'Split', 'SplitTerm', 'ProbesMisc'],
+ 'C06': ['Slice', 'Str', 'Bytes', 'Bytes2', 'StrFns', 'Split', 'SplitTerm', 'ProbesMisc', 'Rest'],
  'C07': ['Chr', 'Str', 'Slice', 'StrFns', 'Chars'],
  'C08': ['Slice', 'SliceFns', 'SliceIter', 'SliceIter2'],
  'C09': ['Range', 'Range2', 'RangeIter'],
  'C12': ['Str', 'ParseInt', 'ParsePrim', 'ParseWith', 'ParseInt2'],
- 'C13': ['Str', 'StrFns', 'ParserA', 'ParserB', 'ParseInt', 'ParseWith', 'ParseInt2'],
+ 'C13': ['Str', 'StrFns', 'ParserA', 'ParserB', 'ParseInt', 'ParseWith', 'ParseInt2', 'Rest'],
  'C14': ['Bytes', 'Bytes2', 'BytesTrim', 'StrFns', 'ParserA', 'ParserB', 'ParseInt'],
  'C16': ['Cmp', 'Cmp2', 'Cmp3', 'Cmp4', 'Cmp5', 'Cmp6', 'Cmp7', 'ProbesMisc'],
  'C18': ['StrFns', 'ParserA', 'ProbesPm'],
  'C20': ['Chr', 'Slice', 'Concat', 'SliceConcat', 'CStr', 'CStr2'],
- 'C19': ['ProbesOpt', 'ProbesMisc'],
- 'C10': ['SliceIter2', 'ProbesIter', 'ProbesIterModel'],
+ 'C19': ['ProbesOpt', 'ProbesMisc', 'Rest'],
+ 'C10': ['SliceIter2', 'ProbesIter', 'ProbesIterModel', 'Rest'],
 }
 for p, ms in USES.items():
     have = [m for m in ms if os.path.exists(f'{OB}/equiv/{m}.txt')]
